@@ -115,6 +115,7 @@ impl Parser {
                 | TokenKind::LBracket
                 | TokenKind::Minus
                 | TokenKind::Not
+                | TokenKind::Tilde
                 | TokenKind::If
                 | TokenKind::Fn
         )
